@@ -18,6 +18,6 @@ func c08RestartGen(rt *rapid.T) c08TCase { return c08OutageGenModes(rt, []string
 
 func TestVerif_C08_zrestart(t *testing.T) {
 	c08GetServer()
-	kit.Run(t, "C08", "token-restart", kit.Opts{Quick: 80, Thorough: 6400}, c08RestartGen,
+	kit.Run(t, "C08", "token-restart", kit.Opts{Quick: 80, Thorough: 3200}, c08RestartGen,
 		func(c c08TCase) kit.Verdict { return c08TokenInterp(t, c, c08RuleRestart) })
 }
